@@ -23,9 +23,16 @@ ok, out = vlib.build_model()
 print("model:", ok, out[-2000:] if not ok else "")
 if not ok:
     sys.exit(1)
-# the other harness variants (nofast, instr, release) are built by the checks that use them
-for v in ("default",):
-    ok, out = vlib.build_harness(v)
+# all harness variants are built here, concurrently (default: every check; nofast, instr: C05;
+# release: C09), so that no quick check pays for a first cargo build
+import threading
+res = {}
+def b(v):
+    res[v] = vlib.build_harness(v)
+ths = [threading.Thread(target=b, args=(v,)) for v in ("default", "nofast", "instr", "release")]
+for t in ths: t.start()
+for t in ths: t.join()
+for v, (ok, out) in res.items():
     print("harness", v, ok, out[-2000:] if not ok else "")
     if not ok:
         sys.exit(1)
